@@ -169,6 +169,10 @@ class Ctx:
         except subprocess.TimeoutExpired as ex:
             raise Inconclusive("harness timeout: %s" % " ".join(argv[:3]))
         log("[run] %s rc=%d %.1fs" % (os.path.basename(argv[0]), p.returncode, time.time() - t))
+        if p.returncode != 0 and p.stderr:
+            rp = real_code_panic(p.stderr)
+            if rp:
+                self.real_panic = (rp[0], rp[1], list(argv), p.stderr[:1500])
         return p
 
     # ------------------------------------------------------------------ verdicts
@@ -220,7 +224,7 @@ def real_code_panic(stderr):
     """The harness process died of a Go panic that the harness could not recover (it happened on a goroutine the code under
     test started).  If the panicking goroutine was running code of lisk-engine - its first frames lie in
     github.com/LiskHQ/lisk-engine/pkg/... and not in the harness - return (package/function, message); else None."""
-    m = re.search(r"^(panic: .*|fatal error: .*)$", stderr, re.M)
+    m = re.search(r"(panic: [^\n]*|fatal error: [^\n]*)", stderr)
     if not m:
         return None
     rest = stderr[m.end():]
